@@ -714,6 +714,7 @@ class RulesMixin:
         segment that ends, then havoc every shared object under its invariant and rely"""
         ctx = self.ctx
         self.n_yields = getattr(self, "n_yields", 0) + 1
+        self.time_passes(fr)
         us = self.unit_self
         unit = getattr(self, "unit_name", "?")
         if us is not None and not getattr(self, "in_init", False):
@@ -801,6 +802,23 @@ class RulesMixin:
                         for cl in cc.published_inv:
                             val = self.spec_eval(cl, {"self": el}, None)
                             self.ctx.prove(f"{unit}.published.{cl.name}", z3.Implies(stored, self.as_z3_bool(val)), cl.text, where, note=f"published invariant of an element of self.{f}", props=cl.props)
+
+    def time_passes(self, fr):
+        """a suspension: the ghost clock advances; inside a trio timeout block the deadline may
+        strike here (the body is cancelled at exactly the deadline)"""
+        from . import models_rt as rt
+        import trio
+
+        if getattr(self, "clock", None) is None and not getattr(self, "deadlines", None):
+            return
+        t = rt.advance(self, "t")
+        dl = [d for d in getattr(self, "deadlines", []) if d.fields.get("t_deadline") is not None]
+        if dl and not getattr(self, "shielded", 0):
+            inner = dl[-1]
+            if self.ctx.choose(2, f"deadline@{fr.line}", ["in-time", "deadline"]) == 1:
+                self.ctx.assume(t == inner.fields["t_deadline"])
+                raise PyRaise(SObj(trio.Cancelled, {"args": (), "scope": inner}), fr.where())
+            self.ctx.assume(t <= inner.fields["t_deadline"])
 
     def havoc_all(self, use_rely=True):
         self.havoc_with_rely = use_rely
